@@ -33,7 +33,9 @@ def segments():
     Rbad = R[:-6] + b"1234\r\n"
     Rno = RP.build_readout(b"/KAM5", [b"1-0:32.7.0(230.1*V)"], checksum=None)
     assert RP.dissect(Rbad)["sent"] != RP.dissect(Rbad)["crc"]
+    Fp1 = RH.build_frame(0xA, 0, b"\x01", b"\x21", 0x13, R)  # a valid frame that carries a complete valid readout
     return {
+        "Fp1": b"\x7e" + Fp1 + b"\x7e",
         "Fp": b"\x7e" + Fp + b"\x7e", "F0": b"\x7e" + F0 + b"\x7e", "Fbad": b"\x7e" + Fbad + b"\x7e", "Flen": b"\x7e" + Flen + b"\x7e",
         "Fs": b"\x7e" + RH.stuff(Fs) + b"\x7e", "R": R, "Rbad": Rbad, "Rno": Rno, "bin": bytes([0x00, 0xFF, 0x2F, 0x41, 0x0A, 0x7D]), "asc": b"hello\r\n",
     }
@@ -41,7 +43,7 @@ def segments():
 
 SEG = segments()
 SEGN = tuple(SEG)
-CLEAN_H = {"Fp": b"\xe6\xe7\x00payload", "F0": None}
+CLEAN_H = {"Fp": b"\xe6\xe7\x00payload", "F0": None}  # (Fp1 can legitimately be taken for P1 traffic: not in the completeness clause)
 CLEAN_P = {"R": RP.dissect(SEG["R"])["payload"], "Rno": RP.dissect(SEG["Rno"])["payload"]}
 
 
@@ -123,6 +125,11 @@ def mk_chunks(S, ch):
 
 def check(w, spec, payload_mode, ch) -> list[str]:
     S = b"".join(SEG[x] for x in w)
+    if ch[0] == "noisecalls":
+        chunks = [bytes.fromhex(ch[2])] * ch[1] + [SEG[x] for x in w]
+        e = expected(spec, chunks, payload_mode)
+        a = actual(spec, chunks, payload_mode)
+        return [f"queue {a!r:.150} != expected from the selected reader {e!r:.150}"] if e != a else []
     chunks = mk_chunks(S, ch)
     e = expected(spec, chunks, payload_mode)
     a = actual(spec, chunks, payload_mode)
@@ -215,6 +222,33 @@ def _work_runs(task) -> core.Part:
     return p
 
 
+def _work_manycalls(task) -> core.Part:
+    """n data_received() calls of noise (n up to 3000) in which no candidate finds anything, then a clean stream in the
+    format of the first / second candidate: counters on calls (not on bytes) show here."""
+    n, = task
+    p = core.Part()
+    noises = {"binary without flag": bytes([0x11, 0x22, 0x33]), "ascii without start char": b"abc", "flag-free with LF": b"x\n"}
+    for nname, unit in noises.items():
+        for w in (("Fp", "F0", "Fp"), ("R", "Rno", "R")):
+            tail = [SEG[x] for x in w]
+            chunks = [unit] * n + tail
+            for spec in (("H", "P"), ("P", "H"), ("H", "Hs", "P"), ("H",), ("P",)):
+                for pm in (True, False):
+                    try:
+                        e = expected(spec, chunks, pm)
+                        a = actual(spec, chunks, pm)
+                    except Exception:  # noqa: BLE001
+                        p.add("exceptions_seen_(C14)")
+                        continue
+                    p.add("executions")
+                    p.add("nontrivial")
+                    if e != a:
+                        p.viol("forwarding", f"forwarding:manycalls:{n}:{nname}:{w[0]}:{'/'.join(spec)}:{pm}",
+                               f"{n} data_received() calls of noise ({nname}), then segments {list(w)}; readers {list(spec)} {'payload' if pm else 'message'} protocol: queue {a!r:.100} != expected {e!r:.100}",
+                               {"segments": list(w), "readers": list(spec), "payload_mode": pm, "chunking": ["noisecalls", n, unit.hex()]}, size=n)
+    return p
+
+
 def main(run: core.Run) -> int:
     q = run.quick
     run.rule = ("streams = every sequence of <=N segments over {valid frame, header-only frame, bad-FCS frame, wrong-length frame, stuffed frame, valid readout, bad-CRC readout, "
@@ -232,9 +266,10 @@ def main(run: core.Run) -> int:
     kmax = 40 if q else 130
     run.log(f"run-length sweep: k = 1..{kmax}")
     run.merge(par.pmap(_work_runs, [(list(range(1, kmax + 1))[i::16],) for i in range(16)], seed=run.seed))
+    run.merge(par.pmap(_work_manycalls, [(n,) for n in (1, 9, 25, 26, 100, 130, 257, 999, 1000, 1001, 1100, 2049, 3000)], seed=run.seed))
     tot = run.total
     tot.sample({"segments": ["Fbad", "R", "Fp"], "readers": ["H", "P"], "protocol": "payload", "chunking": "cut@20", "expected_queue": "payload of R only (P1 reader selected in the chunk where R completes)"})
-    run.bounds = {"run_lengths": f"k = 1..{kmax} invalid (or valid) messages in a row around valid ones, 9 stream families x 4 candidate lists x 2 classes x 4 chunkings", "segments": f"<= {N}", "candidate_lists": [list(s) for s in SPECS], "pairs_of_cuts": "single segments" if q else "sequences of <= 2 segments (<=120 B)"}
+    run.bounds = {"many_calls": "1..3000 data_received() calls of 2-3 bytes of noise before a clean stream, 5 candidate lists", "run_lengths": f"k = 1..{kmax} invalid (or valid) messages in a row around valid ones, 9 stream families x 4 candidate lists x 2 classes x 4 chunkings", "segments": f"<= {N}", "candidate_lists": [list(s) for s in SPECS], "pairs_of_cuts": "single segments" if q else "sequences of <= 2 segments (<=120 B)"}
     run.assumptions = ["the expected queue is computed from fresh real reader instances fed the same chunks (the property is relative to the readers' own output)",
                        "HDLC candidates use abort detection on; 'Hs' = octet stuffing"]
     ex = tot.c.get("executions", 0)
